@@ -45,6 +45,21 @@
 #define MAX(a, b) ((a) > (b) ? (a) : (b))
 #define MIN(a, b) ((a) > (b) ? (b) : (a))   ///< Returns the minimum of a and b
 
+// WHFast, WHFast512, SABA, MERCURIUS and TRACE work on internal coordinate arrays and access particle 0
+// (central object / centre of mass) unconditionally. With N==0 there is nothing to do for them.
+static int reb_integrator_needs_particles(const struct reb_simulation* const r){
+    switch(r->integrator){
+        case REB_INTEGRATOR_WHFAST:
+        case REB_INTEGRATOR_WHFAST512:
+        case REB_INTEGRATOR_SABA:
+        case REB_INTEGRATOR_MERCURIUS:
+        case REB_INTEGRATOR_TRACE:
+            return 1;
+        default:
+            return 0;
+    }
+}
+
 void reb_integrator_part1(struct reb_simulation* r){
 	if (r->integrator != REB_INTEGRATOR_BS && r->ri_bs.nbody_ode){
 		// Left over from an earlier use of the BS integrator. It is still in the list of ODEs and
@@ -53,6 +68,10 @@ void reb_integrator_part1(struct reb_simulation* r){
 		r->ri_bs.nbody_ode = NULL;
 		r->ri_bs.user_ode_needs_nbody = 0; // Only the BS integrator itself couples user ODEs to its N-body ODE.
 	}
+    if (r->N==0 && reb_integrator_needs_particles(r)){
+        // Nothing to integrate. These integrators keep internal per-particle arrays and would dereference particle 0.
+        return;
+    }
 	switch(r->integrator){
 		case REB_INTEGRATOR_IAS15:
 			reb_integrator_ias15_part1(r);
@@ -93,6 +112,11 @@ void reb_integrator_part1(struct reb_simulation* r){
 }
 
 void reb_integrator_part2(struct reb_simulation* r){
+    if (r->N==0 && reb_integrator_needs_particles(r)){
+        // Empty simulation: only advance the time (as the other integrators do), then advance user-defined ODEs below.
+        r->t += r->dt;
+        r->dt_last_done = r->dt;
+    }else
 	switch(r->integrator){
 		case REB_INTEGRATOR_IAS15:
 			reb_integrator_ias15_part2(r);
